@@ -111,6 +111,15 @@ func gobEncodeItem(it Item) ([]byte, error) {
 		})
 	}
 	if IsObject(it) {
+		if enc, ok := it.(gob.GobEncoder); ok {
+			// NOTE: the vocabulary types encode themselves, so we go by the concrete type of the item
+			// instead of its type name: an *Object that holds a Tombstone or a Relationship document,
+			// or a *CollectionPage holding an OrderedCollectionPage one, is narrower than the struct
+			// its type name stands for, and must not be read through the wider type.
+			bytes, err := enc.GobEncode()
+			b.Write(bytes)
+			return b.Bytes(), err
+		}
 		switch it.GetType() {
 		case IRIType:
 			var bytes []byte
